@@ -42,3 +42,49 @@ func Harness_C07_impact() {
 	zz.Assert(zz.And((m-1)*int64(T) <= cacheImpactFactor*(age+slack), cacheImpactFactor*age < m*int64(T)),
 		"the age multiplier is 1 + floor(cacheImpactFactor * age / TraceTimeout)")
 }
+
+// C07 (the trace's estimate is current when it is used): Trace.CacheImpact memoises the sum of its
+// spans' estimates and AddSpan must invalidate the memo. A span of any size arrives, the estimate
+// is taken after any time a1 (an ejection round the trace survives), any time a2 later a second
+// span arrives, and the estimate is taken again at once: it equals the sum of the two spans'
+// own current estimates (size x age multiplier), not a total whose older part still has the
+// multiplier of the first round.
+func Harness_C07_memo() {
+	zz.MustCover("(*github.com/honeycombio/refinery/types.Trace).CacheImpact", "(*github.com/honeycombio/refinery/types.Trace).AddSpan")
+	zz.Bound("spans", 2)
+	zz.Bound("age_max_timeouts", 2)
+	T := 60 * time.Second
+	a1, a2 := zz.NondetInt64("a1"), zz.NondetInt64("a2")
+	zz.Assume(a1 >= 0)
+	zz.Assume(a1 <= 2*int64(T))
+	zz.Assume(a2 >= 0)
+	zz.Assume(a2 <= 2*int64(T))
+	s1, s2 := zz.NondetInt("size1"), zz.NondetInt("size2")
+	zz.Assume(s1 >= 1)
+	zz.Assume(s1 < 1<<20)
+	zz.Assume(s2 >= 1)
+	zz.Assume(s2 < 1<<20)
+	t0 := int64(1 << 40)
+	tr := &Trace{TraceID: "A"}
+	sp1, sp2 := &Span{Event: &Event{}}, &Span{Event: &Event{}}
+	sp1.Event.dataSize, sp2.Event.dataSize = s1, s2
+	zz.SetNow(t0)
+	tr.AddSpan(sp1)
+	zz.SetNow(t0 + a1)
+	if !zz.InEngine() { // natively time.Now is the real clock: the span arrived a1 ago
+		sp1.ArrivalTime = time.Now().Add(-time.Duration(a1))
+	}
+	first := tr.CacheImpact(T)
+	zz.Assert(first >= s1, "the estimate is at least the data size")
+	zz.SetNow(t0 + a1 + a2)
+	if !zz.InEngine() {
+		sp1.ArrivalTime = time.Now().Add(-time.Duration(a1 + a2))
+	}
+	tr.AddSpan(sp2)
+	before := sp1.CacheImpact(T) + sp2.CacheImpact(T)
+	second := tr.CacheImpact(T)
+	after := sp1.CacheImpact(T) + sp2.CacheImpact(T)
+	// in the engine the clock stands still and before == after; natively the real clock may step
+	// a multiplier between the three readings
+	zz.Assert(zz.And(before <= second, second <= after), "after a span is added the trace's estimate is the sum of its spans' current estimates")
+}
